@@ -91,6 +91,13 @@ def _impl(tier, seed, search):
         if ok:
             L.close('q.unit:unit', float(np.linalg.norm(uq)), 1.0, TOL, 1.0, dict(q=q)); L.close('q.unit:direction', uq * mag, q, TOL, mag, dict(q=q))
             L.close('q.unit:idempotent', b.unit(uq), uq, TOL, 1.0, dict(q=q))
+        # … of a unit-quaternion object whose stored value has drifted (built without normalisation): unit again afterwards
+        qd_ = q / mag * (1 + float(g.choice([-1, 1])) * 10.0 ** g.uniform(-10, -3))
+        for fm_, mk_ in (('(s,v)', lambda: UnitQuaternion(qd_[0], qd_[1:], norm=False)), ('Nx4', lambda: UnitQuaternion(np.array([qd_, qd_]), norm=False))):
+            ok, r = L.noraise(f'UnitQuaternion.unit(drifted {fm_})', lambda: np.asarray(mk_().unit().data[0], float), dict(q=qd_), 'unit() of a drifted UnitQuaternion')
+            if ok:
+                L.close('UnitQuaternion.unit(drifted):unit', float(np.linalg.norm(r)), 1.0, TOL, 1.0, dict(q=qd_, form=fm_), what='unit() of a UnitQuaternion whose stored value is not unit length does not return a unit quaternion', sig='UnitQuaternion.unit:drifted')
+                L.close('UnitQuaternion.unit(drifted):direction', r * float(np.linalg.norm(qd_)), qd_, TOL, 1.0, dict(q=qd_, form=fm_), sig='UnitQuaternion.unit:drifted')
         ok, r = L.noraise('Quaternion.unit', lambda: Quaternion(q).unit(), dict(q=q), 'Quaternion.unit()')
         if ok:
             L.check('Quaternion.unit:class', type(r).__name__ == 'UnitQuaternion', dict(q=q), 'Quaternion.unit() is not a UnitQuaternion')
@@ -188,6 +195,22 @@ def _impl(tier, seed, search):
             if (w2 != 0 and abs(w2) > 100 * 2.2e-16) or w2 == 0:
                 ok3, r3 = L.noraise('unittwist2', lambda: b.unittwist2(S2), dict(S=S2), 'unittwist2')
                 if ok3 and r3 is not None: L.close('unittwist2_norm=unittwist2', un_, r3, 1e-9, max(1.0, float(np.max(np.abs(r3)))), dict(S=S2), what='unittwist2_norm and unittwist2 disagree')
+        # the class property on every kind of twist (irrotational, sub-threshold, ordinary): the same unit twist as the base function
+        ok, r = L.noraise('Twist3.unit(any)', lambda: np.asarray(Twist3(S).unit.S, float), dict(S=S), 'Twist3.unit', sig='Twist3.unit:raises')
+        if ok and us is not None:
+            L.check('Twist3.unit:finite', bool(np.all(np.isfinite(r))), dict(S=S), 'Twist3.unit is not finite', observed=r, sig='Twist3.unit')
+            if np.all(np.isfinite(r)): L.close('Twist3.unit=unittwist(any)', r, us, TOL, max(1.0, float(np.max(np.abs(us)))), dict(S=S), what='Twist3.unit differs from base.unittwist', sig='Twist3.unit')
+        # the zero threshold is on the length (2-norm) of the rotational part: 10 eps; a rotational part spread over several components
+        # just above it is rotational, just below it is not
+        if i % 5 == 0:
+            for fac_, rot_ in ((1.2, True), (1.6, True), (0.8, False), (0.5, False)):
+                dsp = np.array([1.0, -1.0, 1.0]) if i % 10 == 0 else np.array([0.0, 1.0, -1.0])
+                wsp = dsp / np.linalg.norm(dsp) * fac_ * 10 * np.finfo(float).eps; Ssp = np.r_[vv if np.linalg.norm(vv) > 0 else [1.0, 0, 0], wsp]
+                ok, r = L.noraise('unittwist(threshold)', lambda: (b.unittwist(Ssp), b.unittwist_norm(Ssp)[0], np.asarray(Twist3(Ssp).unit.S, float)), dict(S=Ssp), 'unittwist near the zero threshold')
+                if ok and all(x_ is not None for x_ in r):
+                    for nm_, u_ in zip(('unittwist', 'unittwist_norm', 'Twist3.unit'), r):
+                        part_ = float(np.linalg.norm(u_[3:])) if rot_ else float(np.linalg.norm(u_[:3]))
+                        L.close(f'{nm_}:threshold({fac_})', part_, 1.0, 1e-9, 1.0, dict(S=Ssp, rotational=rot_), what=f'{nm_}: a twist whose rotational part has length {fac_} x 10 eps is normalised as if it were {"irrotational" if rot_ else "rotational"}', sig='unittwist:threshold')
         if i % 4 == 0 and np.linalg.norm(w) > 1e-6:
             ok, r = L.noraise('Twist3.unit', lambda: Twist3(S).unit.S, dict(S=S), 'Twist3.unit')
             if ok: L.close('Twist3.unit:unit-rotational-part', float(np.linalg.norm(np.asarray(r)[3:])), 1.0, TOL, 1.0, dict(S=S), what='Twist3.unit does not have a unit rotational part', sig='Twist3.unit')
